@@ -8,6 +8,8 @@ import (
 	"errors"
 	"fmt"
 	"reflect"
+	"strings"
+	"time"
 
 	clover "github.com/ostafen/clover/v2"
 	d "github.com/ostafen/clover/v2/document"
@@ -19,10 +21,53 @@ type qSnap struct {
 	limit, skip int
 	sort        []query.SortOption
 	crit        query.Criteria
+	critPrint   string // deep rendering of the criteria tree: operators, fields, operand values with their Go types
 }
 
 func snapQuery(q *query.Query) qSnap {
-	return qSnap{q.Collection(), q.GetLimit(), q.GetSkip(), append([]query.SortOption{}, q.SortOptions()...), q.Criteria()}
+	return qSnap{q.Collection(), q.GetLimit(), q.GetSkip(), append([]query.SortOption{}, q.SortOptions()...), q.Criteria(), critFingerprint(q.Criteria())}
+}
+
+// the criteria as the caller built it, operand by operand: a read operation that normalises operands IN PLACE
+// (int -> int64 inside the caller's In(...) slice, say) changes this rendering without changing the pointer
+func critFingerprint(c query.Criteria) string {
+	switch x := c.(type) {
+	case nil:
+		return "nil"
+	case *query.UnaryCriteria:
+		return fmt.Sprintf("U(%d,%q,%s)", x.OpType, x.Field, valFingerprint(x.Value))
+	case *query.NotCriteria:
+		return "N(" + critFingerprint(x.C) + ")"
+	case *query.BinaryCriteria:
+		return fmt.Sprintf("B(%d,%s,%s)", x.OpType, critFingerprint(x.C1), critFingerprint(x.C2))
+	}
+	return fmt.Sprintf("?%T", c)
+}
+
+func valFingerprint(v interface{}) string {
+	switch x := v.(type) {
+	case nil:
+		return "nil"
+	case []interface{}:
+		parts := make([]string, len(x))
+		for i, e := range x {
+			parts[i] = valFingerprint(e)
+		}
+		return "[" + strings.Join(parts, ",") + "]"
+	case func(*d.Document) bool:
+		return "func"
+	case time.Time:
+		_, off := x.Zone()
+		return fmt.Sprintf("time(%d,%d,%d)", x.Unix(), x.Nanosecond(), off)
+	}
+	if query.IsField(v) {
+		return fmt.Sprintf("field%v", v)
+	}
+	switch reflect.ValueOf(v).Kind() {
+	case reflect.Chan, reflect.Func, reflect.Ptr, reflect.UnsafePointer:
+		return fmt.Sprintf("%T", v)
+	}
+	return fmt.Sprintf("%T:%#v", v, v)
 }
 
 func (a qSnap) diff(b qSnap) string {
@@ -37,6 +82,8 @@ func (a qSnap) diff(b qSnap) string {
 		return "sort options"
 	case a.crit != b.crit:
 		return "criteria"
+	case a.critPrint != b.critPrint:
+		return fmt.Sprintf("criteria operands: %s -> %s", clip(a.critPrint, 200), clip(b.critPrint, 200))
 	}
 	return ""
 }
